@@ -113,7 +113,7 @@ var opTemplates = [][2]string{
 	{"config", "config get proc strict-vars"},
 	{"config", "config set shell max-suggestions 7"},
 	{"config", "config get shell max-suggestions"},
-	{"named-pipe", "out %T -> <np%N>"},
+	{"named-pipe", "pipe q%N%T ; out %T -> <q%N%T> ; !pipe q%N%T"},
 	{"dump", "fid-list -> [0..1]"},
 	{"dump", "runtime --fids -> [0]"},
 	{"dump", "runtime --globals -> [g%N]"},
@@ -168,7 +168,6 @@ func (c Case) Source() string {
 	fmt.Fprintf(&b, "$GLOBAL.g%s = \"init\"\nglobal gg%s = init\n$GLOBAL.obj%s = %%{k: v, arr: [1,2,3]}\n", n, n, n)
 	fmt.Fprintf(&b, "function fn%s { out init }\nalias al%s=out init\n", n, n)
 	fmt.Fprintf(&b, "function fnargs%s {\n  args a %%{AllowAdditional: true, Flags: %%{--str: str, --num: num, -b: bool, -s: --str}}\n  out $a.Flags\n}\n", n)
-	fmt.Fprintf(&b, "pipe np%s\nbg { <np%s> -> null }\n", n, n)
 	for _, s := range c.Sections {
 		body := strings.ReplaceAll(strings.Join(s.Ops, "\n"), "%N", n)
 		switch s.Wrap {
@@ -180,7 +179,6 @@ func (c Case) Source() string {
 			b.WriteString(body + "\n")
 		}
 	}
-	fmt.Fprintf(&b, "!pipe np%s\n", n)
 	return b.String()
 }
 
@@ -445,7 +443,7 @@ func TestReplay(t *testing.T) {
 	filterKnown = false
 	s := spec
 	s.Check = func(c Case) *core.Violation {
-		n := core.EnvInt("VERIF_C32_REPLAY_RUNS", 30)
+		n := core.EnvInt("VERIF_C32_REPLAY_RUNS", 12)
 		for i := 0; i < n; i++ {
 			c.Perturb = c.Perturb*6364136223846793005 + 1442695040888963407
 			if v := check(c); v != nil {
